@@ -118,12 +118,12 @@ theorem choose_some_is_max (cfg : Cfg) (off : List String) (m : Mech) (h : choos
     ∀ m' ∈ permitted cfg off, weaker m m' = false :=
   chooseFrom_max h hpref
 
-example : choose { creds := { password := true } } ["PLAIN", "SCRAM-SHA-256", "DIGEST-MD5", "SCRAM-SHA-1", "X-OAUTH2", "EXTERNAL"]
+example : choose { creds := { password := .nonEmpty } } ["PLAIN", "SCRAM-SHA-256", "DIGEST-MD5", "SCRAM-SHA-1", "X-OAUTH2", "EXTERNAL"]
     = some (.scram .sha256) := by decide
-example : ∀ p, prefMech { creds := { password := true } } = some p →
-    p ∉ permitted { creds := { password := true } } ["PLAIN", "SCRAM-SHA-256", "DIGEST-MD5", "SCRAM-SHA-1", "X-OAUTH2", "EXTERNAL"] := by
+example : ∀ p, prefMech { creds := { password := .nonEmpty } } = some p →
+    p ∉ permitted { creds := { password := .nonEmpty } } ["PLAIN", "SCRAM-SHA-256", "DIGEST-MD5", "SCRAM-SHA-1", "X-OAUTH2", "EXTERNAL"] := by
   decide
-example : permitted { creds := { password := true } } ["PLAIN", "SCRAM-SHA-256", "DIGEST-MD5", "SCRAM-SHA-1", "X-OAUTH2", "EXTERNAL"]
+example : permitted { creds := { password := .nonEmpty } } ["PLAIN", "SCRAM-SHA-256", "DIGEST-MD5", "SCRAM-SHA-1", "X-OAUTH2", "EXTERNAL"]
     = [.scram .sha256, .simple .digestMd5, .scram .sha1] := by decide
 
 /-- **Preferred**: a configured mechanism that is permitted is the one chosen (even if a stronger one is permitted). -/
@@ -131,9 +131,9 @@ theorem choose_prefers (cfg : Cfg) (off : List String) (p : Mech) (hp : prefMech
     (hmem : p ∈ permitted cfg off) : choose cfg off = some p := by
   unfold choose; rw [hp]; exact chooseFrom_pref hmem
 
-example : prefMech { preferred := "DIGEST-MD5", creds := { password := true } } = some (.simple .digestMd5) ∧
-    Mech.simple .digestMd5 ∈ permitted { preferred := "DIGEST-MD5", creds := { password := true } } ["SCRAM-SHA-512", "DIGEST-MD5"] ∧
-    choose { preferred := "DIGEST-MD5", creds := { password := true } } ["SCRAM-SHA-512", "DIGEST-MD5"] = some (.simple .digestMd5) := by
+example : prefMech { preferred := "DIGEST-MD5", creds := { password := .nonEmpty } } = some (.simple .digestMd5) ∧
+    Mech.simple .digestMd5 ∈ permitted { preferred := "DIGEST-MD5", creds := { password := .nonEmpty } } ["SCRAM-SHA-512", "DIGEST-MD5"] ∧
+    choose { preferred := "DIGEST-MD5", creds := { password := .nonEmpty } } ["SCRAM-SHA-512", "DIGEST-MD5"] = some (.simple .digestMd5) := by
   decide
 
 /-- …and a configured mechanism that is disabled (or not offered, or unusable) is *not* used: the choice is then
@@ -155,7 +155,7 @@ theorem choose_ignores_unpermitted_preference (cfg : Cfg) (off : List String)
         | true => exact absurd (by simpa using hb) hnm
       simp only [List.isEmpty_cons, Bool.false_eq_true, if_false, hc]
 
-example : choose { disabled := ["PLAIN"], preferred := "PLAIN", creds := { password := true } } ["PLAIN", "SCRAM-SHA-1", "ANONYMOUS"]
+example : choose { disabled := ["PLAIN"], preferred := "PLAIN", creds := { password := .nonEmpty } } ["PLAIN", "SCRAM-SHA-1", "ANONYMOUS"]
     = some (.scram .sha1) := by decide
 
 /-- **Mismatch iff nothing qualifies.** -/
@@ -163,7 +163,7 @@ theorem choose_none_iff (cfg : Cfg) (off : List String) : choose cfg off = none 
   chooseFrom_none_iff _ _
 
 example : choose {} ["PLAIN", "SCRAM-SHA-1", "GSSAPI"] = none := by decide
-example : choose { creds := { password := true } } ["PLAIN", "GSSAPI", "SCRAM-SHA-1-PLUS"] = none := by decide
+example : choose { creds := { password := .nonEmpty } } ["PLAIN", "GSSAPI", "SCRAM-SHA-1-PLUS"] = none := by decide
 
 /-- **Order and duplicates of the offer are irrelevant**: two offers containing the same names give the same choice. -/
 theorem choose_set_invariant (cfg : Cfg) (off off' : List String) (h : ∀ n, n ∈ off ↔ n ∈ off') :
@@ -195,6 +195,46 @@ theorem choose_disabled_set_invariant (cfg cfg' : Cfg) (off : List String)
   · rintro ⟨n, hn, hdn, r⟩; exact ⟨n, hn, fun x => hdn ((hd n).mpr x), r⟩
   · rintro ⟨n, hn, hdn, r⟩; exact ⟨n, hn, fun x => hdn ((hd n).mp x), r⟩
 
+/-! ## usable with the stored credentials -/
+
+theorem present_iff (s : Secret) : s.present = true ↔ s = .nonEmpty := by
+  cases s <;> simp [Secret.present]
+
+/-- **Password mechanisms need a non-empty password**: a SCRAM mechanism, DIGEST-MD5 or PLAIN is chosen only when
+the stored password is non-empty — a never-set (null) and an empty-but-set (`QString("")`) password are both no password. -/
+theorem choose_password_mechanism_needs_nonempty_password (cfg : Cfg) (off : List String) (m : Mech)
+    (h : choose cfg off = some m)
+    (hm : (∃ a, m = .scram a) ∨ m = .simple .digestMd5 ∨ m = .simple .plain) :
+    cfg.creds.password = .nonEmpty := by
+  obtain ⟨_, _, _, _, ha⟩ := choose_never_disabled_unoffered_unknown cfg off m h
+  rw [← present_iff]
+  rcases hm with ⟨a, rfl⟩ | rfl | rfl <;> simpa [available] using ha
+
+/-- **Token mechanisms need their non-empty tokens**: X-OAUTH2 needs a non-empty Google token, X-MESSENGER-OAUTH2 a
+non-empty Windows Live token, X-FACEBOOK-PLATFORM a non-empty access token *and* a non-empty app id. -/
+theorem choose_x_mechanisms_need_nonempty_tokens (cfg : Cfg) (off : List String) :
+    (choose cfg off = some (.simple .google) → cfg.creds.google = .nonEmpty) ∧
+    (choose cfg off = some (.simple .windowsLive) → cfg.creds.windowsLive = .nonEmpty) ∧
+    (choose cfg off = some (.simple .facebook) → cfg.creds.fbToken = .nonEmpty ∧ cfg.creds.fbAppId = .nonEmpty) := by
+  refine ⟨?_, ?_, ?_⟩ <;> intro h <;>
+    obtain ⟨_, _, _, _, ha⟩ := choose_never_disabled_unoffered_unknown cfg off _ h
+  · rw [← present_iff]; simpa [available] using ha
+  · rw [← present_iff]; simpa [available] using ha
+  · rw [← present_iff, ← present_iff]; simpa [available] using ha
+
+/-- **An HT mechanism is chosen only with a stored token for exactly that mechanism, and only without channel binding.** -/
+theorem choose_ht_needs_matching_token (cfg : Cfg) (off : List String) (h' : Nat) (cb : Cb)
+    (h : choose cfg off = some (.ht h' cb)) : cfg.creds.htToken = some (h', cb) ∧ cb = .nob := by
+  obtain ⟨_, _, _, _, ha⟩ := choose_never_disabled_unoffered_unknown cfg off _ h
+  simpa [available] using ha
+
+/-- With an empty (set but `""`) password the client falls back to what is usable, or reports a mismatch. -/
+example : choose { creds := { password := .empty, google := .nonEmpty } } ["SCRAM-SHA-512", "DIGEST-MD5", "ANONYMOUS", "X-OAUTH2"]
+      = some (.simple .anonymous) ∧
+    choose { creds := { password := .empty, google := .nonEmpty } } ["SCRAM-SHA-512", "SCRAM-SHA-1", "DIGEST-MD5"] = none ∧
+    choose { creds := { password := .nonEmpty, fbToken := .nonEmpty, fbAppId := .empty } } ["X-FACEBOOK-PLATFORM"] = none := by
+  decide
+
 /-! ## name level: is the *name that goes on the wire* offered and enabled? -/
 
 /-- **Names are canonical**: a name parses to a mechanism only if it is exactly that mechanism's `toString`
@@ -215,7 +255,7 @@ theorem choose_name_offered_enabled (cfg : Cfg) (off : List String) (m : Mech) (
   rw [fromName_canonical n m hf]
   exact ⟨hn, hd⟩
 
-example : choose { creds := { password := true, htToken := some (0, .nob) } }
+example : choose { creds := { password := .nonEmpty, htToken := some (0, .nob) } }
       ["HT-SHA-256-NONE", "HT-SHA3-512-NONE", "SCRAM-SHA-1", "PLAIN", "EXTERNAL", "HT-SHA-256-ENDP", "SCRAM-SHA-1-PLUS"]
       = some (.ht 0 .nob) := by decide
 
@@ -223,7 +263,7 @@ example : choose { creds := { password := true, htToken := some (0, .nob) } }
 not used unless its own name is offered and enabled. -/
 theorem ht_alias_names_rejected :
     fromName "HT-SHA-256SHA-512-NONE" = none ∧
-    authenticate { disabled := ["PLAIN", "HT-SHA-512-NONE"], creds := { password := true, htToken := some (2, .nob) } }
+    authenticate { disabled := ["PLAIN", "HT-SHA-512-NONE"], creds := { password := .nonEmpty, htToken := some (2, .nob) } }
       ["HT-SHA-256SHA-512-NONE", "SCRAM-SHA-1"] = .sent "SCRAM-SHA-1" false ∧
     authenticate { disabled := [], creds := { htToken := some (2, .nob) } } ["HT-SHA-256SHA-512-NONE"] = .mismatch [] := by
   decide
@@ -325,9 +365,9 @@ theorem sasl2_fast_flag (cfg : Cfg) (on : Bool) (mechs : List String) (fast : Op
       refine ⟨rfl, fm, rfl, ?_⟩
       rw [hnm]; simpa using hf.symm
 
-example : sasl2Authenticate { creds := { password := true, htToken := some (0, .nob) } } true ["SCRAM-SHA-256", "PLAIN"]
+example : sasl2Authenticate { creds := { password := .nonEmpty, htToken := some (0, .nob) } } true ["SCRAM-SHA-256", "PLAIN"]
     (some ["HT-SHA-256-NONE", "HT-SHA3-512-NONE"]) = .sent "HT-SHA-256-NONE" true := by decide
-example : sasl2Authenticate { creds := { password := true, htToken := some (0, .nob) } } false ["SCRAM-SHA-256", "PLAIN"]
+example : sasl2Authenticate { creds := { password := .nonEmpty, htToken := some (0, .nob) } } false ["SCRAM-SHA-256", "PLAIN"]
     (some ["HT-SHA-256-NONE", "HT-SHA3-512-NONE"]) = .sent "SCRAM-SHA-256" false := by decide
 
 end Qx.C05
